@@ -613,9 +613,17 @@ class Engine:
         if name == "replace" and len(args) == 2 and all(isinstance(x, str) for x in args):
             return mk("str", M.str_replace_all(as_str_term(val), z3.StringVal(args[0]), z3.StringVal(args[1])))
         if name == "isdigit" and not args:
+            # str.isdigit() also accepts characters int() refuses (superscripts such as '\u00b2'): it does NOT imply that int() succeeds
             t = as_str_term(val)
             r = M.str_isdigit(t)
-            c.assume(z3.Implies(r, z3.And(M_int_ok(t), M_int_val(t) >= 0, z3.Length(t) > 0)))
+            c.assume(z3.Implies(r, z3.Length(t) > 0))
+            return mk("bool", r)
+        if name == "isdecimal" and not args:
+            # every character is a Unicode decimal digit (category Nd) and the string is not empty: exactly what int() accepts
+            # without sign and white space
+            t = as_str_term(val)
+            r = M.str_isdecimal(t)
+            c.assume(z3.Implies(r, z3.And(M_int_ok(t), M_int_val(t) >= 0, z3.Length(t) > 0, M.str_isdigit(t))))
             return mk("bool", r)
         if name == "lower":
             return mk("str", M.str_lower(as_str_term(val)))
